@@ -44,6 +44,7 @@ static unsigned int next_id = 1;
 static unsigned long n_viol;
 static unsigned long n_ops, n_audits, n_cleanups, n_replacements, n_absent_probes;
 static int in_set_call;
+static struct set *probe_set;   /* during set_clear / set_remove with disposal: the set, so that a cleanup can look into it */
 
 static void viol(const char *rule, const char *fmt, ...)
 {
@@ -72,6 +73,9 @@ static void elem_cleanup(void *p)
         cleaned[e->id]++;
     if (cleaned[e->id] > 1)
         viol("cleanup-twice", "cleanup ran %d times on element id=%u", cleaned[e->id], e->id);
+    /* "never on an element still in the set": what a cleanup sees when it looks the element up in its own set */
+    if (probe_set && set_find(probe_set, p) == p)
+        viol("cleanup-in-set", "cleanup of element id=%u key=%lld ran while set_find() still returns that element", e->id, e->mkey);
     if (!in_set_call)
         viol("cleanup-outside", "cleanup outside a set call");
 }
@@ -292,7 +296,9 @@ static void do_remove(struct set *s, struct model *m, struct universe *u, long l
     } else
         n_absent_probes++;
     in_set_call = 1;
+    probe_set = no_dispose ? NULL : s;
     res = set_remove(s, (void *)u->probe(key, variant), no_dispose);
+    probe_set = NULL;
     in_set_call = 0;
     n_ops++;
     if (!!res != !!found)
@@ -366,7 +372,9 @@ static void do_clear(struct set *s, struct model *m, struct universe *u, int no_
         for (ii = 0; ii < n; ++ii)
             ids[ii] = old[ii]->id;
         in_set_call = 1;
+        probe_set = no_dispose ? NULL : s;
         set_clear(s, no_dispose);
+        probe_set = NULL;
         in_set_call = 0;
         n_ops++;
         for (ii = 0; ii < n; ++ii) {
